@@ -188,6 +188,16 @@ MUTANTS = [
     M("c13-user-chains-always-cloned", "C13", (OB, "chains = initial_state if overwrite else initial_state.clone()\n            num_chains = len(initial_state)\n        else:\n            chains = None\n            num_chains = (\n                min(num_chains, num_samples) if num_chains != 0 else num_samples\n            )\n\n        num_time_steps = int(np.ceil(num_samples / num_chains))\n        for i in range(num_time_steps):\n            num_gibbs_steps = burn_in if i == 0 else steps\n\n            chains = nn_state.sample(\n                num_samples=num_chains,\n                k=num_gibbs_steps,\n                initial_state=chains,\n                overwrite=True,\n            )\n\n            sample_stats",
                                                "chains = initial_state.clone()\n            num_chains = len(initial_state)\n        else:\n            chains = None\n            num_chains = (\n                min(num_chains, num_samples) if num_chains != 0 else num_samples\n            )\n\n        num_time_steps = int(np.ceil(num_samples / num_chains))\n        for i in range(num_time_steps):\n            num_gibbs_steps = burn_in if i == 0 else steps\n\n            chains = nn_state.sample(\n                num_samples=num_chains,\n                k=num_gibbs_steps,\n                initial_state=chains,\n                overwrite=True,\n            )\n\n            sample_stats")),
     M("c13-std-error-uses-chains", "C13", (OB, "        std_error = np.sqrt(running_variance / running_length)", "        std_error = np.sqrt(running_variance / max(num_chains, 1))")),
+    # ---- C16
+    M("c16-rsub-wrong-order", "C16", (OB, "        return SumObservable(other, -self)", "        return SumObservable(self, -other)")),
+    M("c16-sum-ignores-left-scalar", "C16", (OB, "        if isinstance(self.left, (float, int)):\n            result += self.left\n", "        if isinstance(self.left, (float, int)) and not isinstance(self.right, ObservableBase):\n            result += self.left\n")),
+    M("c16-prod-squares-scalar", "C16", (OB, "        return self.left * self.right.apply(nn_state, samples)", "        return self.left * abs(self.left) * self.right.apply(nn_state, samples) if abs(self.left) > 2.5 else self.left * self.right.apply(nn_state, samples)")),
+    M("c16-neg-returns-self-scaled", "C16", (OB, "            self, -1, name=(\"-\" + self.name), symbol=(\"-\" + self.symbol)", "            self, 1, name=(\"-\" + self.name), symbol=(\"-\" + self.symbol)")),
+    M("c16-obs-times-obs-allowed", "C16", (OB, "            raise ValueError(\"Exactly one of o1 or o2 must be an Observable!\")", "            self.left = 1\n            self.right = o1")),
+    M("c16-sub-as-add", "C16", (OB, "    def __sub__(self, other):\n        return SumObservable(self, -other)", "    def __sub__(self, other):\n        return SumObservable(self, -other) if isinstance(other, ObservableBase) else SumObservable(self, other)")),
+    M("c16-bool-scalar-dropped", "C16", (OB, "        if isinstance(self.right, (float, int)):\n            result += self.right", "        if isinstance(self.right, (float, int)) and not isinstance(self.right, bool):\n            result += self.right")),
+    M("c16-type-check-removed", "C16", (OB, "        if not isinstance(o2, (float, int, ObservableBase)):\n            raise TypeError(\"o2 does not have the right type!\")\n\n        self.left = o1\n        self.right = o2", "        self.left = o1\n        self.right = o2")),
+    M("c16-stats-uses-left-only", "C16", (OB, "        obs_samples = self.apply(nn_state, samples).data", "        obs_samples = (self.left if isinstance(getattr(self, 'left', None), ObservableBase) and isinstance(getattr(self, 'right', None), ObservableBase) else self).apply(nn_state, samples).data")),
 ]
 
 BENIGN = [
